@@ -141,6 +141,9 @@ class Parser:
         if tk != "name":
             raise LuaSyntaxError("type name expected")
         s = tv
+        if self.peek() == ("op", "<"):
+            # Luau reads `<` after a type name as the start of generic arguments: `x :: T < y` is not `(x :: T) < y` but a parse error
+            raise LuaSyntaxError("`<` directly after a type name (read as a generic argument list)")
         if self.peek() == ("op", "?"):
             self.next(); s += "?"
         return s
